@@ -705,7 +705,7 @@ func mutate(r *Rng, in []byte) []byte {
 
 // ---------------------------------------------------------------- the run
 func runC17(c *Ctx) {
-	c.Res.Rule = "inputs: corpus of fixed defects; every 1- and 2-byte input (exhaustive, digests) and all 256 continuations of sampled (quick) / all (thorough) 2-byte prefixes; structure-aware random streams (well-formed items of every major type with defects mixed in: reserved additional information, indefinite strings, hostile 2^31..2^64 lengths and counts, odd maps, missing breaks, unknown tags, out-of-range prefix lengths, extreme timestamps); valid streams written by the real encoder under binary_log, byte-mutated (1-3 edits) incl. streams up to 64 KiB; every cut point of valid streams; nesting 65536 deep; all three entry points. non-trivial = anything but an immediate end-of-input error without output; distinct by input bytes"
+	c.Res.Rule = "inputs: corpus of fixed defects; a directed grid of hostile lengths and counts (2^31-1 .. 2^64-1) at every position a length is read (top level, after every known tag, in arrays and maps); every 1- and 2-byte input (exhaustive, digests) and all 256 continuations of sampled (quick) / all (thorough) 2-byte prefixes; structure-aware random streams (well-formed items of every major type with defects mixed in: reserved additional information, indefinite strings, hostile 2^31..2^64 lengths and counts, odd maps, missing breaks, unknown tags, out-of-range prefix lengths, extreme timestamps); valid streams written by the real encoder under binary_log, byte-mutated (1-3 edits) incl. streams up to 64 KiB; every cut point of valid streams; nesting 65536 deep; all three entry points. non-trivial = anything but an immediate end-of-input error without output; distinct by input bytes"
 	r := &runner{c: c, w: &worker{Timeout: 20 * time.Second}, classes: map[int]int{}}
 	defer r.w.stop()
 	hdr := "From Verif Require Import Base.Prelude Enc.CborEnc Enc.CborDec Harness.C17H.\nOpen Scope N_scope."
@@ -721,11 +721,11 @@ func runC17(c *Ctx) {
 		{0x5b, 0x7f, 0xff, 0xff, 0xff, 0xff, 0xff, 0xff, 0xff},
 		{0x7b, 0xff, 0xff, 0xff, 0xff, 0xff, 0xff, 0xff, 0xff},
 		{0xd9, 0x01, 0x06, 0x5b, 0x80, 0, 0, 0, 0, 0, 0, 0},
-		{0x1b, 0x80, 0, 0, 0, 0, 0, 0, 0},                         // Uint(1<<63)
-		{0x1b, 0xff, 0xff, 0xff, 0xff, 0xff, 0xff, 0xff, 0xff},    // Uint64(MaxUint64)
-		{0x3b, 0xff, 0xff, 0xff, 0xff, 0xff, 0xff, 0xff, 0xff},    // -2^64
-		{0x3b, 0x7f, 0xff, 0xff, 0xff, 0xff, 0xff, 0xff, 0xff},    // MinInt64
-		append([]byte{0x48}, []byte("a\"b\\c\n\xff")...),          // Bytes("a\"b\\c\n\xff")
+		{0x1b, 0x80, 0, 0, 0, 0, 0, 0, 0},                      // Uint(1<<63)
+		{0x1b, 0xff, 0xff, 0xff, 0xff, 0xff, 0xff, 0xff, 0xff}, // Uint64(MaxUint64)
+		{0x3b, 0xff, 0xff, 0xff, 0xff, 0xff, 0xff, 0xff, 0xff}, // -2^64
+		{0x3b, 0x7f, 0xff, 0xff, 0xff, 0xff, 0xff, 0xff, 0xff}, // MinInt64
+		append([]byte{0x48}, []byte("a\"b\\c\n\xff")...),       // Bytes("a\"b\\c\n\xff")
 		{0xbf, 0x61, 0x6b, 0x48, 'a', '"', 'b', '\\', 'c', '\n', 0xff, 0x00, 0xff},
 		{0x9b, 0xff, 0xff, 0xff, 0xff, 0xff, 0xff, 0xff, 0xff},    // array with count -1
 		{0xbb, 0xff, 0xff, 0xff, 0xff, 0xff, 0xff, 0xff, 0xff},    // map with count -1
@@ -756,6 +756,35 @@ func runC17(c *Ctx) {
 	}
 	for _, in := range corpus {
 		r.one(in, "corpus", true)
+	}
+	// ---- directed grid: every position a length or count is read at (top level, after each
+	// tag the decoder knows and one it does not, as array element, map key and map value) x
+	// every length-carrying head (byte string, text string, array, map; 4- and 8-byte
+	// argument) x hostile values around 2^31, 2^32, 2^63 and 2^64
+	{
+		contexts := [][]byte{{}, {0xd8, 0x3f}, {0xd9, 0x01, 0x04}, {0xd9, 0x01, 0x05}, {0xd9, 0x01, 0x05, 0xa1}, {0xd9, 0x01, 0x06}, {0xd9, 0x01, 0x07},
+			{0xc0}, {0xc1}, {0xd8, 0x40}, {0x81}, {0x9f}, {0xbf}, {0xbf, 0x61, 0x6b}, {0xa1}, {0xa1, 0x61, 0x6b}}
+		vals := []uint64{1<<31 - 1, 1 << 31, 1<<32 - 1, 1 << 32, 1 << 40, 1<<62 + 5, 1<<63 - 1, 1 << 63, 1<<63 + 1, math.MaxUint64 - 1, math.MaxUint64}
+		grid := 0
+		for _, cx := range contexts {
+			for major := byte(2); major <= 5; major++ {
+				for _, v := range vals {
+					in := append([]byte{}, cx...)
+					if v < 1<<32 {
+						in = append(in, major<<5|26, byte(v>>24), byte(v>>16), byte(v>>8), byte(v))
+						r.one(append(in, 'x', 'y'), "length-grid", grid%7 == 0)
+						grid++
+						in = append([]byte{}, cx...)
+					}
+					var y [8]byte
+					binary.BigEndian.PutUint64(y[:], v)
+					in = append(append(in, major<<5|27), y[:]...)
+					r.one(append(in, 'x', 'y'), "length-grid", grid%7 == 0)
+					grid++
+				}
+			}
+		}
+		c.Res.ExtraCoverage["length_grid_inputs"] = grid
 	}
 
 	// ---- exhaustive short inputs (digests)
